@@ -7,7 +7,7 @@ snap=/tmp/verif_snap_$$
 rm -rf $snap; mkdir -p $snap
 git -C /verif archive HEAD | tar -x -C $snap
 ln -s /verif/.venv $snap/.venv
-out=/verif/seeded/matrix.txt
+out=${MATRIX_OUT:-/verif/seeded/matrix.txt}
 : > $out
 seeds=${@:-$(cd /verif/seeded && ls -d */ | tr -d /)}
 for sd in $seeds; do
